@@ -51,7 +51,7 @@ def register(claim, not_yet):
     claim('C05',
           'Proved for all lengths, filters, cotangents: strided correlation and transposed convolution are mutual adjoints; AFB1D.backward in mode zero (sfb1d + crop) satisfies '
           '<forward x, g> = <x, backward g>, and in periodization for every length N >= 1 (odd included: the gradient of the repeated last sample is folded back) and even L <= N + N%2 '
-          '(afb_per_adjoint, from the circular transpose theorem). TWO DIMENSIONS, mode zero: one-dimensional pair adjointness lifts along the columns and along the rows of an image (C05D.pairH, pairW), and the code path - row pass then column pass forward; column synthesis of the two band pairs, row synthesis, one crop per axis at the very end backward (AFB2D_forward_val, AFB2D_backward_val) - satisfies <ll,gll> + <lh,glh> + <hl,ghl> + <hh,ghh> = <x, AFB2D.backward(g)> for every image size and filter lengths (AFB2D_zero_adjoint). TWO DIMENSIONS, periodization: the same identity for every image size, odd sizes included (the gradient of the repeated last row / column is folded back once per axis at the very end, which commutes with the row synthesis because the synthesis is additive in the band pair - C05P.idwt_per_add), and even filter lengths L <= size + size % 2 per axis (C05P.AFB2D_per_adjoint; the complement of the recorded short-level finding). SYNTHESIS SIDE, two dimensions, mode zero: SFB2D.backward (the analysis bank with the synthesis filters along rows, then columns of the cotangent) is the adjoint of SFB2D.forward for every band size and filter lengths that fit (C05S.SFB2D_zero_adjoint). The padded modes in 2-D and the channel stacks are decided by the exact correspondence of the four autograd Functions backward passes (all requires_grad masks) and by the Jacobian '
+          '(afb_per_adjoint, from the circular transpose theorem). TWO DIMENSIONS, mode zero: one-dimensional pair adjointness lifts along the columns and along the rows of an image (C05D.pairH, pairW), and the code path - row pass then column pass forward; column synthesis of the two band pairs, row synthesis, one crop per axis at the very end backward (AFB2D_forward_val, AFB2D_backward_val) - satisfies <ll,gll> + <lh,glh> + <hl,ghl> + <hh,ghh> = <x, AFB2D.backward(g)> for every image size and filter lengths (AFB2D_zero_adjoint). TWO DIMENSIONS, periodization: the same identity for every image size, odd sizes included (the gradient of the repeated last row / column is folded back once per axis at the very end, which commutes with the row synthesis because the synthesis is additive in the band pair - C05P.idwt_per_add), and even filter lengths L <= size + size % 2 per axis (C05P.AFB2D_per_adjoint; the complement of the recorded short-level finding). SYNTHESIS SIDE, two dimensions, mode zero: SFB2D.backward (the analysis bank with the synthesis filters along rows, then columns of the cotangent) is the adjoint of SFB2D.forward for every band size and filter lengths that fit (C05S.SFB2D_zero_adjoint). EVERY CHANNEL COUNT, modes zero and periodization: on a stack of C images and C cotangent quadruples the identity holds channel by channel (C07M.AFB2D_zero_adjoint_channels, AFB2D_per_adjoint_channels), and so does the synthesis-side identity in mode zero (C07M.SFB2D_zero_adjoint_channels). The padded modes in 2-D are decided by the exact correspondence of the four autograd Functions backward passes (all requires_grad masks) and by the Jacobian '
           'oracle J^T g on the four modules; the non-adjoint backward passes of symmetric/reflect/periodic (pinned by baseline tests) and short periodization are known findings with '
           'decide-checked witnesses.' + TIE + BRK,
           'Lean 4 adjointness theorems (inner-product identities) + exact autograd correspondence + Jacobian oracle', 'DESIGN.md §4 C05')
@@ -75,7 +75,7 @@ def register(claim, not_yet):
           'and pair of scalars, and whether it raises depends on the lengths only: afb1d in every padding mode (afb1dOne_linear), the synthesis bank sfb1d in the pair (lo, hi) in every mode incl. '
           'the periodization fold + roll (C07D.sfb1dCh_linear), the stationary filter afb1d_atrous (afb1dAtrousOne_linear), the DTCWT filters colfilter (both padding modes), coldfilt and colifilt '
           '(both highpass flags, both parities of m/2: colfilter1_linear, coldfilt1_linear, colifilt1_linear); the grouped convolution with the code weight cat([h0,h1]*C), groups=C applies the same '
-          'two one-channel operators to every channel for every C, and raises iff a channel does (afb1dT_per_channel, afb1dT_total), and the J-level 1-D transform acts channel by channel. '
+          'two one-channel operators to every channel for every C, and raises iff a channel does (afb1dT_per_channel, afb1dT_total), and the J-level 1-D transform acts channel by channel; IN TWO DIMENSIONS the autograd Functions AFB2D.forward and AFB2D.backward act channel by channel on a stack of any number C of images: output channel c is the one-channel row pass + column pass (resp. column synthesis, row synthesis, fold/crop) of input channel c and nothing else enters it (C07M.AFB2D_forward_channels, AFB2D_backward_channels, SFB2D_forward_channels, sfb1dT_total; SFB2D.backward is AFB2D.forward with the synthesis filters). '
           'The lifting of linearity to images / pyramids (row and column passes, q2c/c2q, level loops) is composition of these and is decided on the real code for all seven transforms: '
           'T(ax+by)=aT(x)+bT(y), T(0)=0, slice-alone = slice-of-batch, other slices irrelevant (exact on integers).' + TIE + BRK,
           'Lean 4 linearity theorems for every 1-D operator (calculus of linear list operators) + per-channel theorems + exact correspondence with N,C>1 + linearity/slice oracle', 'DESIGN.md §4 C07')
@@ -116,7 +116,7 @@ def register(claim, not_yet):
           'Proved for every even filter length L >= 2, every even signal length N >= 2 (N < L included) and every commutative ring, on PyWavelets periodization formulas: the synthesis with the reversed '
           'analysis filters is the transpose of the analysis for ALL filter values (per_synthesis_is_transpose); for every orthonormal bank (PRBank with g = reverse(h)) the analysis is an isometry, '
           'energy(lo) + energy(hi) = energy(x) (isometry), and synthesis(analysis(x)) = x (C02.pr_periodization_even). In the C17 regime (even N >= L) the models of afb1d / sfb1d — the code paths, '
-          'tied by the correspondence — equal those formulas, so the same three statements hold for them (impl_isometry, impl_transpose, C02.impl_pr_periodization). THROUGH THE WHOLE PYRAMID: whenever every level input is even and at least as long as the filter (LevelsOK), the J-level module DWT1DForward is PyWavelets wavedec (C17J.DWT1DForward_per_eq_wavedec) and energy(yl) + sum_j energy(yh_j) = energy(x) for every J (wavedec_isometry, DWT1D_isometry). Orthonormality of the shipped '
+          'tied by the correspondence — equal those formulas, so the same three statements hold for them (impl_isometry, impl_transpose, C02.impl_pr_periodization). THROUGH THE WHOLE PYRAMID: whenever every level input is even and at least as long as the filter (LevelsOK), the J-level module DWT1DForward is PyWavelets wavedec (C17J.DWT1DForward_per_eq_wavedec) and energy(yl) + sum_j energy(yh_j) = energy(x) for every J (wavedec_isometry, DWT1D_isometry). TWO DIMENSIONS: one level of the implementation model of AFB2D.forward with an orthonormal column bank and an orthonormal row bank (possibly different) preserves energy, |ll|^2 + |lh|^2 + |hl|^2 + |hh|^2 = |x|^2, for every image with even sides not shorter than the filters (C17K.AFB2D_isometry; the 1-D isometry lifted along rows and columns, iso_W, iso_H). Orthonormality of the shipped '
           'wavelet values is a hypothesis: measured on all haar/db/sym/coif wavelets by the operator oracle (A^T A = I, energy, backprop == inverse) and exactly on integers for '
           'synthesis(reversed filters) == analysis^T.' + TIE + BRK,
           'Lean 4 theorems (circular refinement, transpose, general isometry, PR) + exact correspondence + operator oracle', 'DESIGN.md §4 C17',
